@@ -528,5 +528,6 @@ func extractC17() *lean {
 		closureState = []string{"FUNCTION-MISSING"}
 	}
 	l.def("dagVerifierClosureState", "List String", leanStrList(closureState), closureState)
+	extractC17b(l)
 	return l
 }
